@@ -11,6 +11,7 @@ import (
 	"go/ast"
 	"go/token"
 	"go/types"
+	"reflect"
 
 	"golang.org/x/tools/go/packages"
 )
@@ -214,4 +215,277 @@ func normalizeConstructions(pk *packages.Package) int {
 		})
 	}
 	return n
+}
+
+// Loops over constant function tables. `for _, f := range table { BODY }`, where table is a package-level
+// variable (or a local of the function) initialised once with a slice / array literal of at most eight
+// function values, never written afterwards, and BODY neither breaks, continues, jumps nor assigns f, runs
+// BODY once per entry, in order, with f standing for that entry. The loader rewrites it — in memory, with
+// the type information of the copied nodes registered — into that sequence of blocks, so that "run every
+// check of the table" is the same straight-line code for every rule as the calls written out one by one.
+func unrollFunctionTables(pk *packages.Package) int {
+	info := pk.TypesInfo
+	// package-level tables: var T = []F{e1, …}
+	tables := map[types.Object]*ast.CompositeLit{}
+	for _, f := range pk.Syntax {
+		for _, d := range f.Decls {
+			gd, ok := d.(*ast.GenDecl)
+			if !ok || gd.Tok != token.VAR {
+				continue
+			}
+			for _, sp := range gd.Specs {
+				vs, ok := sp.(*ast.ValueSpec)
+				if !ok || len(vs.Names) != len(vs.Values) {
+					continue
+				}
+				for i, nm := range vs.Names {
+					if cl, ok := ast.Unparen(vs.Values[i]).(*ast.CompositeLit); ok && isFuncTable(info, cl) {
+						if obj := info.Defs[nm]; obj != nil {
+							tables[obj] = cl
+						}
+					}
+				}
+			}
+		}
+	}
+	if len(tables) > 0 {
+		// a table that is written, indexed for writing, appended to, or whose address is taken is not constant
+		for _, f := range pk.Syntax {
+			ast.Inspect(f, func(n ast.Node) bool {
+				switch v := n.(type) {
+				case *ast.AssignStmt:
+					for _, l := range v.Lhs {
+						if o := rootIdentObj(info, l); o != nil {
+							delete(tables, o)
+						}
+					}
+				case *ast.UnaryExpr:
+					if v.Op == token.AND {
+						if o := rootIdentObj(info, v.X); o != nil {
+							delete(tables, o)
+						}
+					}
+				case *ast.CallExpr:
+					for _, a := range v.Args {
+						if id, ok := ast.Unparen(a).(*ast.Ident); ok {
+							if o := info.Uses[id]; o != nil && tables[o] != nil {
+								if b, isB := info.Uses[identOf(v.Fun)].(*types.Builtin); !isB || b.Name() != "len" {
+									delete(tables, o)
+								}
+							}
+						}
+					}
+				}
+				return true
+			})
+		}
+	}
+	n := 0
+	rewriteList := func(list []ast.Stmt) []ast.Stmt {
+		for i, st := range list {
+			rs, ok := st.(*ast.RangeStmt)
+			if !ok || rs.Tok != token.DEFINE || rs.Value == nil {
+				continue
+			}
+			if k, ok := rs.Key.(*ast.Ident); !ok || k.Name != "_" {
+				continue
+			}
+			vid, ok := rs.Value.(*ast.Ident)
+			if !ok {
+				continue
+			}
+			vobj := info.Defs[vid]
+			tid, ok := ast.Unparen(rs.X).(*ast.Ident)
+			if !ok || vobj == nil {
+				continue
+			}
+			cl := tables[info.Uses[tid]]
+			if cl == nil || !bodyIsUnrollable(info, rs.Body, vobj) {
+				continue
+			}
+			blk := &ast.BlockStmt{Lbrace: rs.Pos(), Rbrace: rs.End()}
+			for _, el := range cl.Elts {
+				m := &astCloner{info: info, subst: vobj, with: el}
+				blk.List = append(blk.List, m.clone(rs.Body).(*ast.BlockStmt))
+			}
+			list[i] = blk
+			n++
+		}
+		return list
+	}
+	for _, f := range pk.Syntax {
+		ast.Inspect(f, func(nd ast.Node) bool {
+			switch v := nd.(type) {
+			case *ast.BlockStmt:
+				v.List = rewriteList(v.List)
+			case *ast.CaseClause:
+				v.Body = rewriteList(v.Body)
+			case *ast.CommClause:
+				v.Body = rewriteList(v.Body)
+			}
+			return true
+		})
+	}
+	return n
+}
+
+func identOf(x ast.Expr) *ast.Ident {
+	id, _ := ast.Unparen(x).(*ast.Ident)
+	return id
+}
+
+func rootIdentObj(info *types.Info, x ast.Expr) types.Object {
+	for {
+		switch v := ast.Unparen(x).(type) {
+		case *ast.IndexExpr:
+			x = v.X
+			continue
+		case *ast.SliceExpr:
+			x = v.X
+			continue
+		case *ast.Ident:
+			if o := info.Uses[v]; o != nil {
+				return o
+			}
+			return info.Defs[v]
+		}
+		return nil
+	}
+}
+
+// isFuncTable: a slice or array literal of one to eight elements, each a declared function or a literal.
+func isFuncTable(info *types.Info, cl *ast.CompositeLit) bool {
+	t := info.TypeOf(cl)
+	if t == nil {
+		return false
+	}
+	var elem types.Type
+	switch u := t.Underlying().(type) {
+	case *types.Slice:
+		elem = u.Elem()
+	case *types.Array:
+		elem = u.Elem()
+	default:
+		return false
+	}
+	if _, ok := elem.Underlying().(*types.Signature); !ok || len(cl.Elts) == 0 || len(cl.Elts) > 8 {
+		return false
+	}
+	for _, el := range cl.Elts {
+		switch v := ast.Unparen(el).(type) {
+		case *ast.Ident:
+			if _, ok := info.Uses[v].(*types.Func); !ok {
+				return false
+			}
+		case *ast.SelectorExpr:
+			if _, ok := info.Uses[v.Sel].(*types.Func); !ok {
+				return false
+			}
+		default:
+			return false
+		}
+	}
+	return true
+}
+
+func bodyIsUnrollable(info *types.Info, body *ast.BlockStmt, v types.Object) bool {
+	ok := true
+	ast.Inspect(body, func(n ast.Node) bool {
+		switch s := n.(type) {
+		case *ast.BranchStmt, *ast.LabeledStmt, *ast.FuncLit, *ast.GoStmt, *ast.DeferStmt:
+			ok = false
+		case *ast.AssignStmt:
+			for _, l := range s.Lhs {
+				if id, isID := ast.Unparen(l).(*ast.Ident); isID && info.Uses[id] == v {
+					ok = false
+				}
+			}
+		case *ast.UnaryExpr:
+			if id, isID := ast.Unparen(s.X).(*ast.Ident); isID && s.Op == token.AND && info.Uses[id] == v {
+				ok = false
+			}
+		}
+		return ok
+	})
+	return ok
+}
+
+// astCloner deep-copies a syntax tree, registers the type information of the copies, and replaces the uses
+// of one variable by (a copy of) an expression.
+type astCloner struct {
+	info  *types.Info
+	subst types.Object
+	with  ast.Expr
+}
+
+var nodeType = reflect.TypeOf((*ast.Node)(nil)).Elem()
+
+func (c *astCloner) clone(n ast.Node) ast.Node {
+	if n == nil || reflect.ValueOf(n).IsNil() {
+		return n
+	}
+	if id, ok := n.(*ast.Ident); ok && c.subst != nil && c.info.Uses[id] == c.subst {
+		sub := &astCloner{info: c.info}
+		r := sub.clone(c.with).(ast.Expr)
+		return r
+	}
+	ov := reflect.ValueOf(n).Elem()
+	nv := reflect.New(ov.Type())
+	for i := 0; i < ov.NumField(); i++ {
+		of, nf := ov.Field(i), nv.Elem().Field(i)
+		if !nf.CanSet() {
+			continue
+		}
+		switch {
+		case of.Type() == reflect.TypeOf((*ast.Object)(nil)) || of.Type() == reflect.TypeOf((*ast.Scope)(nil)):
+			// deprecated resolver links: not used
+		case of.Kind() == reflect.Interface && of.Type().Implements(nodeType), of.Kind() == reflect.Ptr && of.Type().Implements(nodeType):
+			if !of.IsNil() {
+				nf.Set(reflect.ValueOf(c.clone(of.Interface().(ast.Node))))
+			}
+		case of.Kind() == reflect.Slice && (of.Type().Elem().Implements(nodeType)):
+			if !of.IsNil() {
+				ns := reflect.MakeSlice(of.Type(), of.Len(), of.Len())
+				for k := 0; k < of.Len(); k++ {
+					if e := of.Index(k); !(e.Kind() == reflect.Interface || e.Kind() == reflect.Ptr) || !e.IsNil() {
+						ns.Index(k).Set(reflect.ValueOf(c.clone(e.Interface().(ast.Node))))
+					}
+				}
+				nf.Set(ns)
+			}
+		default:
+			nf.Set(of)
+		}
+	}
+	out := nv.Interface().(ast.Node)
+	// type information of the copy
+	if oe, ok := n.(ast.Expr); ok {
+		if tv, ok := c.info.Types[oe]; ok {
+			c.info.Types[out.(ast.Expr)] = tv
+		}
+	}
+	switch o := n.(type) {
+	case *ast.Ident:
+		ni := out.(*ast.Ident)
+		if u, ok := c.info.Uses[o]; ok {
+			c.info.Uses[ni] = u
+		}
+		if d, ok := c.info.Defs[o]; ok {
+			c.info.Defs[ni] = d
+		}
+		if in, ok := c.info.Instances[o]; ok {
+			c.info.Instances[ni] = in
+		}
+	case *ast.SelectorExpr:
+		if s, ok := c.info.Selections[o]; ok {
+			c.info.Selections[out.(*ast.SelectorExpr)] = s
+		}
+	}
+	if im, ok := c.info.Implicits[n]; ok {
+		c.info.Implicits[out] = im
+	}
+	if sc, ok := c.info.Scopes[n]; ok {
+		c.info.Scopes[out] = sc
+	}
+	return out
 }
